@@ -6,9 +6,15 @@ ids = [json.loads(l)["id"] for l in open(os.path.join(ROOT, "properties.jsonl"))
 
 # id -> (technique, level text, level note, design ref)
 CLAIMED = {
+ "C01": ("conservation ledger monitor over hooked snapshots: supply vector before/after every batch and around each of the 7 sealing phases versus an allowance computed from the inputs",
+         "Thousands of batches and sealed blocks of generated histories (all kinds, dependent/shuffled batches, every pool-name spelling, wrong-kind pool data, values to 2^120, custom/test/main networks at fabricated heights); supply = coins + reserves by the slot's canonical denominations + fee pool + tips; any increase beyond faucet / new-token / liquidity-for-named-deposit / reference peg nudge / TIP-909 schedule is a violation attributed to its phase.",
+         "ERG minting is checked under C18; deposits inside the documented legacy window (mainnet/testnet below 978392) are excluded; the peg allowance is the exact reference nudge for MEL and a constant-product upper bound for SYM.", "6/C01"),
  "C02": ("reference-model monitor over hooked coin-tree snapshots before/after every batch of generated histories",
          "Every batch of thousands of generated histories (all transaction kinds, dependent members in every order, one hostile mutation) is checked against a map-based UTXO model: accepted => necessary validity conditions held and coin set = prior - inputs + outputs exactly; rejected => every observable component unchanged.",
          "Covers generated batches only; validity model checks necessary conditions (sufficiency is observed, not claimed); covenants outside the reference interpreter's domain give no claim.", "6/C02"),
+ "C09": ("panic/abort monitor (catch_unwind + panic hook recording message, location and originating crate; one process per shard with a journal) around every API call on hostile workloads",
+         "Random histories on all network classes with one hostile mutation per batch (16 field mutators + byte-level mutation that still deserializes), degenerate requests (zero-valued pool requests, empty/garbage/partial MelPoW proofs at all difficulties, undecodable stake documents, faucet-minted liquidity tokens, maximal values), extreme proposer deltas; apply_tx_batch, seal, next_unsealed, apply_block, confirm, from_block are all called under the monitor; deterministic probes replay the crash-class inputs of DESIGN section 9.",
+         "Supply kept below 2^127 by construction (the property's precondition); overflow traps that exist only because dependency generics are instantiated with overflow checks are excluded (checked against a production-like build); hangs are bounded by the driver's watchdog and reported inconclusive.", "6/C09"),
  "C10": ("differential monitor against an independent reference interpreter, final result through the public API and pc/stack/heap in lockstep through the hooked executor",
          "All programs of length <= 4 over a 16-instruction alphabet x 3 heaps are enumerated; ~10^5 (quick) type-aware random programs with counted/nested loops, jumps in and out of loops, boundary operands and mixed types, random decodable lists and environment-reading programs over random transactions/headers are run on both interpreters; millions of intermediate machine states are compared per run.",
          "Corners the specification does not pin down (shift >= 256, loop body past the end or empty, lengths > 2^22) are excluded and counted; ed25519 and blake3 are trusted.", "6/C10"),
